@@ -163,11 +163,15 @@ class LLOneParser:
                 llone_parsing_table[production.head][first].append(
                     production
                 )
-        for production in non_nullable_productions:
+        # A nullable production with a non-empty body is also chosen on the
+        # symbols its body can start with
+        for production in nullable_productions + non_nullable_productions:
             if production.head not in llone_parsing_table:
                 llone_parsing_table[production.head] = {}
             for first in self._get_first_set_production(production,
                                                         first_set):
+                if first == Epsilon():
+                    continue
                 if first not in llone_parsing_table[production.head]:
                     llone_parsing_table[production.head][first] = []
                 llone_parsing_table[production.head][first].append(
